@@ -114,11 +114,12 @@ type Range struct {
 	s     *Sym
 	atoms map[string]ssa.Value // atom name -> a representative SSA value
 	// axioms that hold everywhere in the function (definitions, type ranges)
-	global   []Lin // each >= 0
-	seenAx   map[string]bool
-	loops    []*Loop
-	depth    int
-	products []product
+	global    []Lin // each >= 0
+	seenAx    map[string]bool
+	inGuarded map[*ssa.Phi]bool
+	loops     []*Loop
+	depth     int
+	products  []product
 }
 
 func (p *Prog) NewRange(fn *ssa.Function) *Range {
@@ -247,8 +248,8 @@ func (rg *Range) valueAxioms(name string, v ssa.Value) {
 				}
 			}
 		case token.REM:
-			if c, ok := x.Y.(*ssa.Const); ok && c.Value != nil {
-				if cv, exact := constant.Int64Val(c.Value); exact && cv > 0 {
+			if cv, exact := rg.constVal(x.Y); exact {
+				if cv > 0 {
 					rg.axiom(linConst(cv - 1).minus(a))
 					rg.axiom(a.addConst(cv - 1))
 					if xl, ok := rg.lin(x.X); ok && rg.nonneg(xl) {
@@ -257,8 +258,8 @@ func (rg *Range) valueAxioms(name string, v ssa.Value) {
 				}
 			}
 		case token.QUO:
-			if c, ok := x.Y.(*ssa.Const); ok && c.Value != nil {
-				if cv, exact := constant.Int64Val(c.Value); exact && cv > 0 {
+			if cv, exact := rg.constVal(x.Y); exact {
+				if cv > 0 {
 					if xl, ok := rg.lin(x.X); ok && rg.nonneg(xl) {
 						// cv*q <= x < cv*q + cv
 						rg.axiom(xl.minus(a.scale(cv)))
@@ -510,6 +511,96 @@ func (rg *Range) phiAxioms(name string, ph *ssa.Phi) {
 	if down {
 		rg.axiom(il.minus(a))
 	}
+	// guarded countdown: the phi starts non-negative and every step down is
+	// taken only where its result is still non-negative (for e > 0 { e-- }):
+	// then the phi is non-negative throughout (induction over iterations)
+	if down && !up && rg.nonneg(il) && !rg.inGuarded[ph] {
+		if rg.inGuarded == nil {
+			rg.inGuarded = map[*ssa.Phi]bool{}
+		}
+		rg.inGuarded[ph] = true
+		okAll := true
+		for k, e := range ph.Edges {
+			bo, isStep := e.(*ssa.BinOp)
+			if !isStep || bo.X != ssa.Value(ph) {
+				continue
+			}
+			el, ok := rg.lin(e)
+			if !ok {
+				okAll = false
+				break
+			}
+			hyp := append([]Lin{a}, rg.edgeCmpFacts(ph.Block().Preds[k], ph.Block())...)
+			if !rg.entails(hyp, el) {
+				okAll = false
+				break
+			}
+		}
+		delete(rg.inGuarded, ph)
+		if okAll {
+			rg.axiom(a)
+		}
+	}
+	// coupled induction: a header phi stepping by a constant c on the loop's
+	// single back edge, next to the loop's 0-based unit counter i, is init + c*i
+	if c, i, ok := rg.coupledCounter(ph); ok {
+		rel := a.minus(il).minus(rg.atom(i).scale(c))
+		rg.axiom(rel)
+		rg.axiom(rel.scale(-1))
+	}
+}
+
+// unitStep: ph has two edges, one entering the loop (returned as init) and one
+// back edge whose value is ph + c for a constant c.
+func (rg *Range) constStep(ph *ssa.Phi) (init ssa.Value, c int64, ok bool) {
+	if len(ph.Edges) != 2 {
+		return nil, 0, false
+	}
+	b := ph.Block()
+	for k, e := range ph.Edges {
+		if !b.Dominates(b.Preds[k]) {
+			continue
+		}
+		bo, isBo := e.(*ssa.BinOp)
+		if !isBo || bo.Op != token.ADD || bo.X != ssa.Value(ph) {
+			return nil, 0, false
+		}
+		cv, isC := rg.constVal(bo.Y)
+		if !isC || b.Dominates(b.Preds[1-k]) {
+			return nil, 0, false
+		}
+		return ph.Edges[1-k], cv, true
+	}
+	return nil, 0, false
+}
+
+func (rg *Range) coupledCounter(ph *ssa.Phi) (int64, *ssa.Phi, bool) {
+	_, c, ok := rg.constStep(ph)
+	if !ok || c == 0 {
+		return 0, nil, false
+	}
+	for _, in := range ph.Block().Instrs {
+		o, isPhi := in.(*ssa.Phi)
+		if !isPhi {
+			break
+		}
+		if o == ph {
+			continue
+		}
+		init, oc, ok := rg.constStep(o)
+		if !ok || oc != 1 {
+			continue
+		}
+		if k, isC := init.(*ssa.Const); isC && k.Value != nil && k.Value.ExactString() == "0" {
+			if pi, _, _ := rg.constStep(ph); pi != nil {
+				if pk, isC := pi.(*ssa.Const); isC && pk.Value != nil && pk.Value.ExactString() == "0" && c == 1 {
+					continue // two unit counters: nothing to couple
+				}
+			}
+			return c, o, true
+		}
+	}
+	return 0, nil, false
 }
 
 // extractAxioms: post-conditions of calls returning several values.
@@ -590,6 +681,9 @@ func (rg *Range) lin(v ssa.Value) (Lin, bool) {
 	defer func() { rg.depth-- }()
 	if rg.depth > 40 {
 		return rg.atom(v), true
+	}
+	if k, ok := rg.depConst(v); ok {
+		return linConst(k), true
 	}
 	switch x := v.(type) {
 	case *ssa.Const:
@@ -715,6 +809,39 @@ func (rg *Range) lin(v ssa.Value) (Lin, bool) {
 		return rg.atom(v), true
 	}
 	return Lin{}, false
+}
+
+// constVal: v is an integer constant, literally or by the dependency table.
+func (rg *Range) constVal(v ssa.Value) (int64, bool) {
+	if c, ok := v.(*ssa.Const); ok && c.Value != nil && c.Value.Kind() == constant.Int {
+		return constant.Int64Val(c.Value)
+	}
+	return rg.depConst(v)
+}
+
+// depConst: v is one of the dependencies' fixed group/hash sizes (the table
+// depConsts of rules.go): a getter and the literal are the same number.
+func (rg *Range) depConst(v ssa.Value) (int64, bool) {
+	switch v.(type) {
+	case *ssa.Convert, *ssa.UnOp, *ssa.Field, *ssa.Call:
+	default:
+		return 0, false
+	}
+	if _, _, ok := intBits(v.Type(), rg.p.IntBits); !ok {
+		return 0, false
+	}
+	t := rg.s.Of(v).String()
+	if !strings.Contains(t, ").Params>(") && !strings.Contains(t, "crypto.Hash).Size>(") {
+		return 0, false
+	}
+	r := depConsts.Replace(t)
+	if strings.HasPrefix(r, "const:") {
+		var k int64
+		if _, err := fmt.Sscanf(r[6:], "%d", &k); err == nil && fmt.Sprintf("const:%d", k) == r {
+			return k, true
+		}
+	}
+	return 0, false
 }
 
 func (l Lin) scaleRat(f *big.Rat) Lin { return newLin().add(l, f) }
@@ -1020,6 +1147,15 @@ func (rg *Range) cmpFact(a Atom) []Lin {
 
 // factsAt collects linear facts holding at block b: dominating comparisons,
 // successful checked reads (len post-conditions), callee success facts.
+// edgeCmpFacts: comparison facts that hold when control passes from -> to.
+func (rg *Range) edgeCmpFacts(from, to *ssa.BasicBlock) []Lin {
+	var out []Lin
+	for _, a := range rg.s.ff.AtEdge(from, to) {
+		out = append(out, rg.cmpFact(a)...)
+	}
+	return out
+}
+
 func (rg *Range) factsAt(b *ssa.BasicBlock) []Lin {
 	var out []Lin
 	for _, a := range rg.s.ff.At(b) {
